@@ -42,8 +42,8 @@ META = {
 FINDING_EXCLUSIONS = {
     'oror': ('expr:5||7:unix64', lambda lang, plat: True),
     'cast-bool': ('expr:(_Bool)9:unix64', lambda lang, plat: True),
-    'char-highbit': ("expr:'\\x80':aarch64", lambda lang, plat: plat.char_unsigned or plat.sizes['int'] == 2),
-    'multichar': ("expr:'ab':avr", lambda lang, plat: plat.sizes['int'] == 2),
+    'char-highbit': ("expr:'\\x80':aarch64", lambda lang, plat: plat.char_unsigned),
+    'multichar': ("expr:'abc':avr", lambda lang, plat: plat.sizes['int'] == 2),
     'sizeof': ('C09 expr:sizeof(int):unix32', lambda lang, plat: not c09._size_t_ok(plat)),
     'sizeof-struct': ('expr:sizeof(st1)+9:unix64', lambda lang, plat: True),
 }
@@ -244,7 +244,15 @@ def pat_mixed_sign(n, refs, lang, plat):
         return False
     isz = plat.sizes['int']
     for x, y in ((cv[0], cv[1]), (cv[1], cv[0])):
-        if x.neg and not x.unsigned and y.unsigned and max(y.size, isz) >= max(x.size, isz):
+        if x.unsigned or not y.unsigned:
+            continue
+        xs, ys = max(x.size, isz), max(y.size, isz)
+        # x signed, y unsigned
+        if x.neg and ys >= xs:
+            return True
+        # equal sizes: cppcheck converts to the sign of the *left* operand; an unsigned value with the top bit set
+        # then changes
+        if ys <= xs and ys < 8 and y.value >= (1 << (ys * 8 - 1)):
             return True
     return False
 
@@ -281,6 +289,23 @@ def undefined_float_cast(n, refs):
     return not (lo - 1 < v < hi + 1)
 
 
+def undefined_signed_overflow(n, refs):
+    """signed + - * or unary - whose mathematical result differs from what the compiler folded: overflow,
+    undefined (clang's C front end folds with wrap-around and only warns)"""
+    r = refs.get(id(n))
+    cv = _child_vals(n, refs)
+    if r is None or r.unsigned or not cv:
+        return False
+    if n.k == 'bin' and n.op in ('+', '-', '*'):
+        a, b = cv[0].value, cv[1].value
+        m = {'+': a + b, '-': a - b, '*': a * b}[n.op]
+    elif n.k == 'pre' and n.op == '-':
+        m = -cv[0].value
+    else:
+        return False
+    return m != r.value
+
+
 def undefined_shift(n, refs, plat):
     """<< whose count is not below the width of the promoted left operand, or signed << whose mathematical result
     is not representable: undefined in C (clang's C front end folds it anyway)"""
@@ -311,6 +336,26 @@ def pat_cast_char_negative(n, refs, lang, plat):
     return ty == 'char' and r is not None and r.value < 0
 
 
+def pat_truth_as_value(n, refs, lang, plat):
+    """operand in a boolean context (condition of ?:, operand of ! or &&) that contains an unsigned 64-bit value
+    >= 2^63: cppcheck does not store such values ("too big, ambiguous") and then reports the truth value 1 of the
+    operand as its known value"""
+    if n.k == 'cond':
+        ops = n.ch[:1]
+    elif n.k == 'pre' and n.op == '!':
+        ops = n.ch
+    elif n.k == 'bin' and n.op in ('&&', '||'):
+        ops = n.ch
+    else:
+        return False
+    for o in ops:
+        for x in o.walk():
+            r = refs.get(id(x))
+            if r is not None and r.unsigned and r.size == 8 and r.value >= (1 << 63):
+                return True
+    return False
+
+
 def pat_float_cast_large(n, refs, lang, plat):
     """floating literal >= 2^31 converted to an integer type that can hold it"""
     v = _float_child(n)
@@ -337,12 +382,11 @@ def pat_lit(n, refs, lang, plat):
 # name -> (finding key of the witness, predicate); a statement containing a matching node is not used
 FINDING_PATTERNS = [
     ('unsigned-wrap', 'expr:0u-1:unix64', pat_unsigned_wrap),
-    ('mixed-sign-operands', 'expr:224UL+EM:unix32', pat_mixed_sign),
-    ('cast-signed-narrow', 'expr:(char)200:unix64', pat_cast_signed_narrow),
-    ('literal-type', 'C09 expr:0x100000000:unix64 / expr:037777777777:unix64', pat_lit),
+    ('mixed-sign-operands', 'expr:EM:unix32 expr:EM<1u:unix64 expr:0x80000001ul:unix32 expr:0X8001:avr', pat_mixed_sign),
+    ('literal-type', 'expr:0x100000001u:unix64 expr:0X100000000Lu:msp430 (C09 expr:0x100000000:unix64, expr:037777777777:unix64)', pat_lit),
     ('float-cast-large', 'expr:(longlong)4e9:unix64', pat_float_cast_large),
+    ('truth-as-value', 'expr:sizeof(st1)+9:unix64', pat_truth_as_value),
     ('cast-char-negative', "expr:(char)-'\\r':unix64", pat_cast_char_negative),
-    ('unsigned-literal-highbit', 'expr:0x80000001ul:unix32', pat_ulong32_highbit),
 ]
 
 
@@ -399,6 +443,9 @@ def check_unit(ctx, d, name, u, lang, plat, use_gcc, use_patterns=True):
         if any(undefined_float_cast(x, refs) for x in st.ch[1].walk()):
             excluded_lines[line] = None
             ctx.count('dropped', 'statement: floating value not representable in the target type (undefined)')
+        elif any(undefined_signed_overflow(x, refs) for x in st.ch[1].walk()):
+            excluded_lines[line] = None
+            ctx.count('dropped', 'statement: signed overflow (undefined)')
         elif any(undefined_shift(x, refs, plat) for x in st.ch[1].walk()):
             excluded_lines[line] = None
             ctx.count('dropped', 'statement: shift count out of range or signed left shift overflow (undefined)')
@@ -530,6 +577,52 @@ def check_unit(ctx, d, name, u, lang, plat, use_gcc, use_patterns=True):
                               lang, parg if not plat.generated else '--platform=<generated %s.xml>' % plat.name, name, line))
 
 
+def witnesses():
+    """(platform, language, right-hand side of `ll1 = …;`) — one per listed finding, replayed on every run through
+    the same pipeline as generated statements (finding patterns off)"""
+    from ..gen.exprgen import L, B, U, CAST, Q, SZE
+    I = lambda t: L(t, 'I', ('int',))
+    C = lambda t: L(t, 'I', ('chr',))
+    EMn = lambda: L('EM', 'I', ('enumerator',))
+    return [
+        ('unix64', 'c', B('||', I('5'), I('7'))),
+        ('unix64', 'c++', B('||', I('0'), I('7'))),
+        ('unix64', 'c', CAST('_Bool', I('9'))),
+        ('unix64', 'c++', CAST('bool', I('9'))),
+        ('unix64', 'c', B('-', I('0u'), I('1'))),
+        ('unix64', 'c', B('+', I('1'), U('~', I('65535u')))),
+        ('unix64', 'c', CAST('char', I('200'))),
+        ('win64', 'c++', B('-', I('1000ul'), CAST('int', I('0x80000001uLL')))),
+        ('unix64', 'c', CAST('long long', L('4e9', 'F', ('flt',)))),
+        ('unix64', 'c', CAST('char', U('-', C("'\\r'")))),
+        ('unix64', 'c', Q(B('+', SZE(L('st1', 'S', ('var',))), I('9')), I('2'), I('3'))),
+        ('unix32', 'c', B('+', I('224UL'), EMn())),
+        ('unix64', 'c', B('<', EMn(), I('1u'))),
+        ('unix64', 'c++', B('&&', I('12093u'), EMn())),
+        ('aarch64', 'c', C("'\\x80'")),
+        ('avr', 'c', L("'abc'", 'I', ('chr', 'multi'))),
+        ('unix32', 'c', B('/', L('E2', 'I', ('enumerator',)), I('0x80000001ul'))),
+        ('avr', 'c', B('+', L('E1', 'I', ('enumerator',)), I('0X8001'))),
+        ('unix64', 'c', B('+', I('0x100000001u'), I('0'))),
+        ('msp430', 'c', B('+', I('0X100000000Lu'), I('0'))),
+    ]
+
+
+def replay_witnesses(ctx, plats):
+    from ..gen.exprgen import A, L
+    byname = {p.name: p for p in plats}
+    groups = {}
+    for pl, lang, rhs in witnesses():
+        st = A('=', L('ll1', 'I', ('var',)), rhs)
+        st.cat = 'I'
+        groups.setdefault((pl, lang), []).append(st)
+    for (pl, lang), sts in sorted(groups.items()):
+        u = exprgen.unit_from(lang, sts)
+        d = ctx.tmpdir('w_%s_%s' % (pl, 'cxx' if lang == 'c++' else 'c'))
+        check_unit(ctx, d, 'w' + u.ext(), u, lang, byname[pl], pl in ('native', 'unix64'), use_patterns=False)
+        ctx.count('witness', 'statements replayed', len(sts))
+
+
 def _case(ctx, idx, plats, nst):
     rng = ctx.subrng('unit', idx)
     lang = 'c' if idx % 2 == 0 else 'c++'
@@ -556,6 +649,7 @@ def run(ctx):
     ctx.cov['finding_exclusions'] = {k: v[0] for k, v in FINDING_EXCLUSIONS.items()}
     ctx.cov['finding_patterns'] = {p[0]: p[1] for p in FINDING_PATTERNS}
     ctx.cov['platforms'] = {p.name: p.triple for p in plats}
+    replay_witnesses(ctx, plats)
     nlit = ctx.n(2000, 100000)
     per = 40          # statements per unit; each statement yields several judged tokens
     units = max(len(plats) * 2, (nlit // 3 + per - 1) // per)
